@@ -453,8 +453,17 @@ def make_adapter(kind):
             'ADirectDefault': DirectAdapter, 'AIdentity': IdentityAdapter}[kind]()
 
 
+EMPTY_TOK = 99      # token of the EMPTY graph (graphs define __len__, an empty one is falsy)
+
+
 def make_graph(kind, cls, tok):
     """a graph object of class `cls` (relative to the adapter kind) whose structure encodes tok"""
+    if tok == EMPTY_TOK:
+        if cls == 'KOpt':
+            return OptGraph()
+        if cls == 'KSub':
+            return SubG()
+        return MyG() if kind == 'ADirectSub' else nx.DiGraph()
     name = 'tok%d' % tok
     if cls == 'KOpt':
         return OptGraph(OptNode(name, [OptNode('leaf')]))
@@ -479,6 +488,8 @@ def graph_token(obj):
         names = [(d['data'].name if 'data' in d else d.get('name', '')) for _, d in obj.nodes(data=True)]
     else:
         names = [nd.name for nd in obj.nodes]
+    if not names:
+        return EMPTY_TOK
     toks = [int(s[3:]) for s in names if s.startswith('tok')]
     assert len(toks) == 1 and len(names) == 2, names
     return toks[0]
@@ -533,7 +544,7 @@ def val_coq(kind, v):
 
 
 def gen_graph_desc(r, classes):
-    return ['g', r.choice(classes), r.randint(0, 9)]
+    return ['g', r.choice(classes), EMPTY_TOK if r.random() < 0.12 else r.randint(0, 9)]
 
 
 def gen_val_desc(r, classes, top=True):
@@ -766,6 +777,50 @@ def real_method_checks():
 # ----------------------------------------------------------------------------------------
 # driver
 # ----------------------------------------------------------------------------------------
+KEY_NAME_ATTR = 'C18.name-attr-empty-or-nonstring'
+KEY_PARAM_NAME = 'C18.param-called-name'
+# the same pipelines, but the round-trip clause is evaluated WITHOUT the guard
+NX_FN_UNGUARDED = NX_FN.replace('holds_nx_rt G Go phi', 'nx_iso_b nx_attr_eqb phi G Go')
+OPT_FN_UNGUARDED = OPT_FN.replace('holds_opt_rt g go psi', 'opt_iso_b psi g go')
+
+
+def gen_known_name_attr(r, i):
+    """a digraph inside the guard except that >= 1 node has a 'name' attribute that is '' / None / not a string"""
+    desc = gen_nx_desc(r, 6, odd=False)
+    if not desc['nodes']:
+        desc['nodes'].append(['n0', {}])
+    bad = [['', None, 5, 0, True, -12][i % 6]] + [r.choice(['', None, 5, 0, True, -12]) for _ in range(r.randint(0, 2))]
+    for v in bad:
+        a = r.choice(desc['nodes'])[1]
+        a['name'] = v
+    desc['odd'] = True
+    return desc
+
+
+def in_name_attr_class(desc):
+    return any('name' in a and not (isinstance(a['name'], str) and a['name'] != '') for _, a in desc['nodes'])
+
+
+def gen_known_param_name(r, i):
+    """an internal graph inside the guard except that >= 1 node has a parameter whose key is 'name'"""
+    desc = gen_opt_desc(r, 6, odd=False)
+    if not desc['nodes']:
+        desc['nodes'].append(['lr', None])
+        desc['parents'].append([])
+    for _ in range(r.randint(1, 2)):
+        nd = r.choice(desc['nodes'])
+        if i % 3 == 0:
+            nd[0] = r.choice(['', '<absent>', None])      # unnamed node: the parameter becomes the node name
+        nd[1] = dict(nd[1] or {})
+        nd[1]['name'] = r.choice(['zz', 'lr', '', None, 5])
+    desc['odd'] = True
+    return desc
+
+
+def in_param_name_class(desc):
+    return any(p is not None and 'name' in p for _, p in desc['nodes'])
+
+
 def _shard(n, base):
     """fewer, bigger shards when there are many cases (coqc start-up dominates otherwise); capped
     because a shard of 400 graph cases already needs ~0.6 GB in coqc"""
@@ -868,6 +923,30 @@ def run(ctx):
         if not facts['unchanged']:
             ctx.violate('opt_roundtrip', desc, 'BaseNetworkxAdapter.restore modified its input graph')
     ctx.sample({'group': 'opt_roundtrip', 'input': metas[1][0], 'result': 'agree, same names / params / parents'})
+
+    # ---- the two KNOWN findings: dedicated input classes, round-trip clause evaluated without the guard
+    for group, gen, pipe, fn, ty, names, key, member in (
+            ('known_name_attr', gen_known_name_attr, nx_pipeline, NX_FN_UNGUARDED, NX_TY, NX_NAMES, KEY_NAME_ATTR,
+             in_name_attr_class),
+            ('known_param_name', gen_known_param_name, opt_pipeline, OPT_FN_UNGUARDED, OPT_TY, OPT_NAMES, KEY_PARAM_NAME,
+             in_param_name_class)):
+        cases, metas = [], []
+        for i in range(ctx.budget(36, 72)):
+            desc = gen(r, i)
+            assert member(desc)
+            out = _safe(ctx, group, desc, pipe)
+            if out is None:
+                continue
+            cases.append(out[0])
+            metas.append((desc, out[1]))
+        res = ctx.coq_cases(group, REQ, fn, cases, 5, case_ty=ty, shard=150, preamble=PRE)
+        for (desc, facts), rr in zip(metas, res):
+            ctx.count(group, key=desc, nontrivial=True, nodes=facts['n'], round_trips=rr[4])
+            _flag(ctx, group, desc, rr[:4], names[:4], 2)
+            if not rr[4]:
+                ctx.violate(group, desc, names[4] + ' (input class of a known finding)', finding_key=key)
+            if not facts['unchanged']:
+                ctx.violate(group, desc, 'conversion modified or re-used its input graph')
 
     # ---- DumbNetworkxAdapter
     n_dumb = ctx.budget(400, 8000)
@@ -994,6 +1073,14 @@ def replay(ctx, payload):
         case, facts = nx_pipeline(desc)
         res = ctx.coq_cases('replay', REQ, NX_FN, [case], 5, case_ty=NX_TY, preamble=PRE)
         _flag(ctx, 'replay', desc, res[0], NX_NAMES, 2)
+    elif group in ('known_name_attr', 'known_param_name'):
+        nxg = group == 'known_name_attr'
+        case, facts = (nx_pipeline if nxg else opt_pipeline)(desc)
+        res = ctx.coq_cases('replay', REQ, NX_FN_UNGUARDED if nxg else OPT_FN_UNGUARDED, [case], 5,
+                            case_ty=NX_TY if nxg else OPT_TY, preamble=PRE)
+        _flag(ctx, 'replay', desc, res[0][:4], (NX_NAMES if nxg else OPT_NAMES)[:4], 2)
+        if not res[0][4]:
+            ctx.violate('replay', desc, (NX_NAMES if nxg else OPT_NAMES)[4], finding_key=KEY_NAME_ATTR if nxg else KEY_PARAM_NAME)
     elif group == 'opt_roundtrip':
         case, facts = opt_pipeline(desc)
         res = ctx.coq_cases('replay', REQ, OPT_FN, [case], 5, case_ty=OPT_TY, preamble=PRE)
